@@ -28,16 +28,25 @@ DataVersion FromString(const char* str) {
   long tmp = 0;
   DataVersion version;
 
+  // strtol() skips leading whitespace and accepts a sign; neither is part of a
+  // version string, so each field must start with a digit.
+  if (str[0] < '0' || str[0] > '9') {
+    return INVALID_DATA_VERSION;
+  }
+
   tmp = strtol(str, &end_c, 10);
-  if (end_c == str || tmp > 0xFF || tmp < 0) {
+  if (end_c == str || tmp > 0xFF || tmp < 0 || *end_c != '.') {
     return INVALID_DATA_VERSION;
   }
   version.major_version = (uint8_t)tmp;
 
   const char* minor_str = end_c + 1;
+  if (minor_str[0] < '0' || minor_str[0] > '9') {
+    return INVALID_DATA_VERSION;
+  }
 
   tmp = strtol(minor_str, &end_c, 10);
-  if (end_c == minor_str || tmp > 0xFFFF || tmp < 0) {
+  if (end_c == minor_str || tmp > 0xFFFF || tmp < 0 || *end_c != '\0') {
     return INVALID_DATA_VERSION;
   }
   version.minor_version = (uint16_t)tmp;
